@@ -1799,7 +1799,7 @@ func TestC19(t *testing.T) {
 	size := 0
 	run := func(name string, cfg gasEnvCfg, next func(g *gasEnv, gg *gasGen, step int) (gasOp, bool), seed int64) {
 		g := newGasEnv(t, cfg)
-		if thorough && size > 450_000 {
+		if thorough && size > 380_000 {
 			cf = newFile()
 			size = 0
 		}
